@@ -146,6 +146,12 @@ theorem expanded_comments_in_order (q : Quirks) (hh : q.atRuleHoists = false) (h
     (flatItems [] st.root).filter isComment = (logBody q ops {} p []).filter isComment := by
   rw [(C20.bubble_preserves_order q hh hm hs ops p st h).1]
 
+/-- the same for the CODE AS IT IS NOW (after 242f60b), whenever the run lost nothing -/
+theorem expanded_comments_in_order_now (ops : Ops σ) (p : List (Core σ)) (st : St σ)
+    (h : emitTop Quirks.now ops p = .ok st) (hl : st.lost = 0) :
+    (flatItems [] st.root).filter isComment = (logBody Quirks.now ops {} p []).filter isComment := by
+  rw [(C20.bubble_preserves_order_now ops p st h hl).1]
+
 /-- comments of an output tree in document order -/
 def bodyComments : List (BodyItem Nat) → List Nat
   | [] => []
@@ -172,16 +178,19 @@ def orderWitness : List (Core Nat) := [.rule 2 [.media 1 [.rule 3 [.comment 4], 
 /-- SPEC: emitted in source order. -/
 theorem order_spec : commentsOf (emitTop Quirks.spec C20.natOps orderWitness) = some [4, 5] := by rfl
 
-/-- REFUTATION (open finding, flag `atRuleHoists`): the at-rule frame collects `/*5*/` in its
+/-- REFUTATION (flag `atRuleHoists`, code before 242f60b): the at-rule frame collects `/*5*/` in its
 rule copy and inserts that copy at index 0, so it is emitted BEFORE `/*4*/`. -/
 theorem order_asis_refutation : commentsOf (emitTop Quirks.asis C20.natOps orderWitness) = some [5, 4] := by rfl
+
+/-- the code as it is now emits them in source order -/
+theorem order_now : commentsOf (emitTop Quirks.now C20.natOps orderWitness) = some [4, 5] := by rfl
 
 /-- `expanded_comments_in_order_partial` (code as it is): the order is kept whenever the
 comments of an at-rule frame are not preceded by a nested rule — e.g. here. -/
 example : commentsOf (emitTop Quirks.asis C20.natOps
     [.comment 9, .rule 2 [.comment 8, .media 1 [.comment 5, .rule 3 [.comment 4]], .comment 7]]) = some [9, 8, 5, 4, 7] := by rfl
 
-/-! ### `/*# … */` (open finding, flag `hashCommentDropped`) -/
+/-! ### `/*# … */` (flag `hashCommentDropped`, code before 01d06ad) -/
 
 /-- `Comment::write` prints nothing for a comment whose text starts with `#` … -/
 theorem hash_comment_written_as_nothing (isHash : σ → Bool) (t : σ) (h : isHash t = true) :
